@@ -22,11 +22,11 @@ var solvers = []solverSpec{
 	{"z3-new-5.1.0(ematch)", func(f string, t int, seed int) []string {
 		return []string{"z3-new", fmt.Sprintf("-T:%d", t), "smt.mbqi=false", "smt.auto_config=false", fmt.Sprintf("smt.random_seed=%d", seed), f}
 	}},
-	{"z3-new-5.1.0", func(f string, t int, seed int) []string {
-		return []string{"z3-new", fmt.Sprintf("-T:%d", t), fmt.Sprintf("smt.random_seed=%d", seed), fmt.Sprintf("sat.random_seed=%d", seed), f}
-	}},
 	{"z3-4.8.12", func(f string, t int, seed int) []string {
 		return []string{"z3", fmt.Sprintf("-T:%d", t), fmt.Sprintf("smt.random_seed=%d", seed), f}
+	}},
+	{"z3-new-5.1.0", func(f string, t int, seed int) []string {
+		return []string{"z3-new", fmt.Sprintf("-T:%d", t), fmt.Sprintf("smt.random_seed=%d", seed), fmt.Sprintf("sat.random_seed=%d", seed), f}
 	}},
 	// proofs that need model-based instantiation depend on the solver's random choices: retry with other seeds
 	{"z3-new-5.1.0(seed+1)", func(f string, t int, seed int) []string {
@@ -52,7 +52,15 @@ func runSolver(sp solverSpec, file string, timeoutS, seed int) (verdict string, 
 	cmd.Run()
 	dur = time.Since(t0).Seconds()
 	out = buf.String()
-	first := strings.TrimSpace(strings.SplitN(out, "\n", 2)[0])
+	first := ""
+	for _, ln := range strings.Split(out, "\n") {
+		ln = strings.TrimSpace(ln)
+		if ln == "" || strings.HasPrefix(ln, "WARNING") {
+			continue
+		}
+		first = ln
+		break
+	}
 	switch first {
 	case "sat", "unsat", "unknown":
 		return first, out, dur
@@ -138,12 +146,16 @@ func Discharge(obls []*Obligation, workDir string, timeoutS, seed int, crossChec
 						o.Verdict = "failed"
 					}
 					if crossCheck && (sp.name == solvers[0].name || sp.name == solvers[1].name) {
-						// a second opinion from the older z3: disagreement = broken check
-						v2, out2, d2 := runSolver(solvers[2], file, timeoutS, seed)
+						// a second opinion from the other z3 generation: disagreement = broken check
+						other := solvers[2]
+						if sp.name == solvers[0].name {
+							other = solvers[1]
+						}
+						v2, out2, d2 := runSolver(other, file, timeoutS, seed)
 						o.TimeS += d2
 						if (v2 == "sat" || v2 == "unsat") && v2 != verdict {
 							o.Verdict = "solver-disagreement"
-							o.Output = out + "\n--- " + solvers[2].name + " ---\n" + out2
+							o.Output = out + "\n--- " + other.name + " ---\n" + out2
 						}
 					}
 					return
